@@ -2,7 +2,7 @@
 """try_explore.py <Cxx> [patch.diff] [seed] : run only the correspondence/predicate part of a check (no Coq), optionally with a patch applied to /repo."""
 import sys, os, subprocess, collections, importlib, signal
 signal.signal(signal.SIGTERM, lambda *a: sys.exit(143))   # run the finally clause (revert the patch) when killed
-sys.path.insert(0, '/verif/lib')
+sys.path.insert(0, os.path.join(os.path.dirname(os.path.dirname(os.path.abspath(__file__))),'lib'))
 import common as C
 prop = sys.argv[1]
 patch = sys.argv[2] if len(sys.argv) > 2 and sys.argv[2] != '-' else None
